@@ -1232,8 +1232,8 @@ class BufferedWriter(IndexWriter):
     def reader(self, **kwargs):
         from whoosh.reading import MultiReader
 
-        reader = self.writer.reader()
         with self.lock:
+            reader = self.writer.reader()
             ramreader = self._get_ram_reader()
 
         # If there are in-memory docs, combine the readers
@@ -1254,23 +1254,26 @@ class BufferedWriter(IndexWriter):
         self.commit(restart=False)
 
     def commit(self, restart=True):
-        if self.period:
-            self.timer.cancel()
-
+        # The whole flush happens under the lock: documents added by another
+        # thread (or a flush fired by the timer) while the buffer is being
+        # written must neither be dropped nor see a half-replaced writer
         with self.lock:
+            if self.period:
+                self.timer.cancel()
+
             ramreader = self._get_ram_reader()
             self._make_ram_index()
 
-        if self.bufferedcount:
-            self.writer.add_reader(ramreader)
-        self.writer.commit(**self.commitargs)
-        self.bufferedcount = 0
+            if self.bufferedcount:
+                self.writer.add_reader(ramreader)
+            self.writer.commit(**self.commitargs)
+            self.bufferedcount = 0
 
-        if restart:
-            self.writer = self.index.writer(**self.writerargs)
-            if self.period:
-                self.timer = threading.Timer(self.period, self.commit)
-                self.timer.start()
+            if restart:
+                self.writer = self.index.writer(**self.writerargs)
+                if self.period:
+                    self.timer = threading.Timer(self.period, self.commit)
+                    self.timer.start()
 
     def add_reader(self, reader):
         # Pass through to the underlying on-disk index
